@@ -23,7 +23,7 @@ RULE = (
 ASSUMPTIONS = [
     "results are compared as group elements (coordinates mod p, infinity as infinity); (-P).y() being a negative integer is a representation, not a law",
     "curves of non-prime order and the two Edwards curves are excluded (quantifier)",
-    "'rejected' = any exception; low-order points on cofactor-4 SECP112r2 are recorded, not judged (the statement lists off-curve, out-of-range, infinity, other-curve)",
+    "'rejected' = any exception; on the cofactor-4 curve SECP112r2 on-curve points of order 4 / 4n (outside the group the keys live in) are treated as invalid as well; points of order 2 / 2n are recorded only (y == 0 is the library's infinity, so it cannot tell them apart)",
 ]
 TIMEOUT = {"quick": 1200, "thorough": 8 * 3600}
 NSH = 16
@@ -80,7 +80,7 @@ def mandatory_bins(tier):
          "double", "negate", "scalar_mul_all_0_to_2n_plus_1", "scalar_mul_precompute_path", "scalar_mul_without_order", "mul_add", "affine_point_arithmetic", "mixed_jacobi_affine", "equality_across_representations",
          "anomalous_curve_n_eq_p", "long_lived_point_objects_reused_across_operations", "curve_a_zero", "curve_a_minus_3", "curve_p_1_mod_4",
          "shipped_curve", "kG_vs_openssl", "kQ_vs_openssl", "mul_add_vs_openssl", "negation_scale_combination", "scalar_n", "scalar_n_plus_1", "scalar_2^k", "scalar_2^k-1", "ecdh_vs_openssl", "ecdh_edge_scalar",
-         "invalid_off_curve", "invalid_coordinate_ge_p", "invalid_congruent_coordinate_ge_p", "invalid_zero_zero", "invalid_other_curve_point", "invalid_point_object_of_sibling_curve", "invalid_infinity", "repository_suite_under_group_law_monitor"]
+         "invalid_off_curve", "invalid_coordinate_ge_p", "invalid_congruent_coordinate_ge_p", "invalid_zero_zero", "invalid_other_curve_point", "invalid_point_object_of_sibling_curve", "invalid_point_outside_prime_order_subgroup", "invalid_infinity", "repository_suite_under_group_law_monitor"]
     return b
 
 
@@ -511,6 +511,31 @@ def run_shipped(ns, ctx, spec):
                 ctx.violation("invalid_public_point_accepted:other_curve_point:affine_point_of_other_shipped_curve", {"curve": cv.name, "other": oc.name}, rp)
             except Exception as e1:
                 ctx.exc(e1)
+    if int(cv.curve.cofactor() or 1) != 1:
+        # cofactor-4 curve: on-curve points whose order is 4 or 4n (n*P is a point of order 4) do not belong to the
+        # group the keys live in.  Points of order 2 / 2n are NOT judged: the library encodes infinity as y == 0, so
+        # n*P (the two-torsion point) is indistinguishable from infinity for it - recorded only.
+        found = 0
+        for _try in range(400):
+            x = rng.randrange(p)
+            rhs = (x * x * x + a_ * x + b_) % p
+            try:
+                y = int(ns.numbertheory.square_root_mod_prime(rhs, p)) if rhs else 0
+            except Exception:
+                continue
+            if y * y % p != rhs or y == 0:
+                continue
+            nP = S.mul(n, (x, y), p, a_)
+            if nP is None:
+                continue
+            if nP[1] == 0:
+                ctx.note("point_of_order_2n_not_judged")
+                continue
+            found += 1
+            ctx.bin("invalid_point_outside_prime_order_subgroup")
+            offer("outside_prime_order_subgroup", x, y)
+            if found >= 3:
+                break
     ctx.bin("invalid_infinity")
     for wname, fn in (("from_public_point", lambda: K.VerifyingKey.from_public_point(INF, curve=cv)), ("from_string_00", lambda: K.VerifyingKey.from_string(b"\x00", curve=cv)),
                       ("from_public_point_jacobi_inf", lambda: K.VerifyingKey.from_public_point(G * n if (G * n) is not INF else PJ(cv.curve, 0, 0, 1, n), curve=cv))):
